@@ -491,12 +491,13 @@ def check_csv_partition(acc, prop, rng):
     d = tempfile.mkdtemp(prefix='qsmon-sizer-')
     try:
         days = [1, 2, 3, 4, 5, 8]
-        for k, sym in enumerate(('AA', 'BB', 'CC')):
+        unserved = rng.choice(['CC', 'AAX', 'BB.L'])      # given to neither source; its name may begin with a served symbol
+        for k, sym in enumerate(('AA', 'BB', unserved)):
             rows = [{'date': '2021-03-%02d' % day, 'open': 20.0 + 7 * k + i, 'close': 20.5 + 7 * k + i, 'adj': (20.5 + 7 * k + i) / 2.0}
                     for i, day in enumerate(days)]
             datawl.write_csv(os.path.join(d, sym + '.csv'), rows, list(range(len(rows))))
         adjusted_side = rng.choice([[], [], ['BB']])            # the symbols that need adjusted prices: often none
-        raw_side = [s_ for s_ in ('AA', 'BB') if s_ not in adjusted_side]       # CC is given to neither
+        raw_side = [s_ for s_ in ('AA', 'BB') if s_ not in adjusted_side]       # the third file is given to neither
         sources = [CSVDailyBarDataSource(d, None, csv_symbols=list(adjusted_side), adjust_prices=True),
                    CSVDailyBarDataSource(d, None, csv_symbols=tuple(raw_side) if rng.random() < 0.5 else list(raw_side), adjust_prices=False)]
         handler = BacktestDataHandler(None, data_sources=sources)
@@ -513,13 +514,13 @@ def check_csv_partition(acc, prop, rng):
         i = rng.choice([1, 2, 3])
         when = bw.ts('2021-03-%02d 21:00:00' % days[i])
         try:
-            res = sizer(when, {'EQ:AA': 0.5, 'EQ:CC': sign * 0.5})
+            res = sizer(when, {'EQ:AA': 0.5, 'EQ:' + unserved: sign * 0.5})
         except ValueError:
             acc.count('%s:rejections/asset_given_to_no_source' % prop)
         else:
             raise Violation(prop, 'nan-price-accepted/asset-given-to-no-source', 'two CSV sources over one directory restricted to %s '
-                            'and %s: EQ:CC was given to neither, sizing it at %s returned %s instead of raising'
-                            % (adjusted_side, raw_side, when, res), {})
+                            'and %s: EQ:%s was given to neither, sizing it at %s returned %s instead of raising'
+                            % (adjusted_side, raw_side, unserved, when, res), {})
         res = sizer(when, {'EQ:AA': 0.5, 'EQ:BB': sign * 0.5})
         price = {'EQ:AA': 20.5 + i, 'EQ:BB': (27.5 + i) / (2.0 if 'BB' in adjusted_side else 1.0)}
         for a, x in (('EQ:AA', 0.5), ('EQ:BB', sign * 0.5)):
